@@ -414,6 +414,7 @@ _FS = "nessai/flowsampler.py"
 _FPF = "nessai/proposal/flowproposal.py"
 _IFM = "nessai/flowmodel/importance.py"
 MUTANTS = [
+    {"id": "stored-weights-path-wins", "file": "nessai/proposal/flowproposal.py", "old": '        state["weights_file"] = getattr(\n            state.get("flow"), "weights_file", None\n        )\n', "new": '        state["weights_file"] = state.get("weights_file") or getattr(\n            state.get("flow"), "weights_file", None\n        )\n', "expect": "the flow's current weights file"},
     {"id": "reload-falls-back-to-unset-internal-file", "file": "nessai/flowmodel/base.py", "old": "        logger.debug(f\"Reloading weights from {weights_file}\")\n        self.load_weights(weights_file)\n", "new": "        logger.debug(f\"Reloading weights from {weights_file}\")\n        try:\n            self.load_weights(weights_file)\n        except (RuntimeError, OSError, EOFError):\n            if weights_file == self.weights_file:\n                raise\n            self.load_weights(self.weights_file)\n", "expect": "weights loader cannot be None"},
     {"id": "rename-before-close", "file": _IO, "old": "        module.dump(data, file)\n    shutil.move(temp_filename, filename)\n", "new": "        module.dump(data, file)\n        shutil.move(temp_filename, filename)\n", "expect": "CRASH before WRITE+CLOSE"},
     {"id": "dump-in-place", "file": _IO, "old": '    temp_filename = filename + ".temp"\n    with open(temp_filename, "wb") as file:\n        module.dump(data, file)\n    shutil.move(temp_filename, filename)\n', "new": '    with open(filename, "wb") as file:\n        module.dump(data, file)\n', "expect": "safe_file_dump(save_existing=False) from [one checkpoint]"},
